@@ -2,4 +2,8 @@
 
 package main
 
+import "runtime"
+
 const raceEnabled = true
+
+func raceErrors() int { return runtime.RaceErrors() }
